@@ -615,7 +615,7 @@ def gen_cases(rng, nlang: int, per_lang: int):
         if not cands:
             continue
         weights = [rsize(e[0]) ** 1.5 for e in cands]
-        nwf = max(1, per_lang // 4)
+        nwf = max(1, per_lang // 3)
         for i in range(per_lang - nwf):
             r = rng.choices(cands, weights)[0][0]
             seen = []
@@ -672,7 +672,7 @@ def gen_workflow(rng, L: Lang, pool):
              and not has_untyped(e[0])]
     if not typed_src:
         return None
-    for attempt in range(6):
+    for attempt in range(14):
         res = {}          # resource name -> type (sources: declared; outputs: inferred)
         srcs = {}
         tools = []
@@ -1400,6 +1400,10 @@ def fixed_cases():
         {"name": "merge", "nvars": 1, "params": [["V", 0], ["V", 0]], "out": ["V", 0], "cons": []},
         {"name": "f3", "nvars": 0, "params": [sch((9, [A])), sch(D)], "out": sch((10, [(9, [B]), Cc]))},
         {"name": "hof", "nvars": 0, "params": [T_(3, sch(A), sch(B)), sch(A)], "out": sch((9, [(9, [B])]))},
+        {"name": "g0", "nvars": 0, "params": [sch(B)], "out": sch((9, [B]))},
+        {"name": "c0", "nvars": 0, "params": [sch(A)], "out": sch((9, [B])), "chain": ["f0", "g0"]},
+        {"name": "hofc", "nvars": 0, "params": [T_(3, sch(A), sch((9, [B]))), sch(A)],
+         "out": sch((10, [(9, [B]), Cc]))},
     ]
     on = {s: True for s in SWITCHES}
     on["with_canonical_types"] = False
@@ -1422,6 +1426,9 @@ def fixed_cases():
         ("function_argument", op("hof", op("f0"), s(1, B))),
         ("shared_source", op("merge", op("f0", s(1, Cc)), op("f0", s(1, Cc)))),
         ("deep_noncanonical", op("f1", op("f1", op("f1", s(1, B))))),
+        ("composite_applied", op("c0", s(1, B))),
+        # the composite is handed over unapplied: an abstraction whose body is annotated
+        ("composite_passed", op("hofc", op("c0"), s(1, A))),
     ]
     for li, L in enumerate((L1, L2, L3)):
         for name, r in terms:
@@ -1527,6 +1534,7 @@ def run_cases(rep: C.Report, cases, tag: str):
             dist[f"largest_supertype_set_{min(msup, 8) // 2 * 2}+"] += 1
             dist["with_compound_concept"] += ncomp > 0
             dist["with_function_argument"] += any(has_fn(w) for w in c.ws)
+            dist["with_abstraction"] += any(has_abs(w) for w in c.ws)
             dist["with_shared_source"] += sum(1 for w in c.ws for l in leaves(w) if l["k"] == "src") > \
                 len({l["id"] for w in c.ws for l in leaves(w) if l["k"] == "src"})
             dist["source_via_variable"] += any(l.get("via_var") for w in c.ws for l in leaves(w))
@@ -1606,6 +1614,14 @@ def run_cases(rep: C.Report, cases, tag: str):
             what="the model's predicate names are not covered by the vocabulary / do not cover the query's"),
             has_input=False)
     return n_eval, n_dis, dist, samples, len(nontrivial), stats, vinfo
+
+
+def has_abs(w) -> bool:
+    if w["k"] == "abs":
+        return True
+    if w["k"] == "app":
+        return has_abs(w["f"]) or has_abs(w["x"])
+    return False
 
 
 def has_fn(w) -> bool:
